@@ -75,22 +75,101 @@ Theorem C13_round32_idempotent : forall x, is_nan32 (narrow32 x) = false -> roun
 Proof. exact round32_idempotent. Qed.
 Print Assumptions C13_round32_idempotent.
 
-(* The mantissa rounding step is to nearest, ties to even.  Partial: this is the
-   integer statement about [round_shift]; that [narrow_mag] picks the IEEE exponent
-   (24 significant bits, subnormals below 2^-126, overflow to infinity) is tied to
-   Go's conversion and to SpecFloat.binary_normalize by execution
-   (F32.narrow_samples, cases_conv_*.v), not proved against Flocq. *)
-Theorem C13_rounding_nearest_even_partial : forall m k, k <> 0 ->
+(* ---- the float32 conversion is IEEE-754 rounding, proved against Flocq's specification
+   (Io/F32Spec.v).  [round radix2 (FLT_exp (-149) 24) ZnearestE] is round to nearest, ties
+   to even, into the binary32 format (24 significant bits, gradual underflow down to
+   2^-149); [SF2R radix2 x] is the real value (-1)^s * m * 2^e.  The Flocq names are
+   imported inside the section only. *)
+From Sdfx Require Io.F32Spec.
+Section Float32_is_IEEE.
+  Import Flocq.Core.Core Flocq.IEEE754.BinarySingleNaN.
+  Local Open Scope R_scope.
+
+  (* float64(float32(x)) for every finite (-1)^s * m * 2^e (any mantissa, any exponent;
+     every finite non-zero binary64 is one): the IEEE rounding when that is below 2^128 in
+     magnitude - same real value, the sign of x also on a zero result, and a canonical
+     binary64 - and otherwise the infinity of the sign of x. *)
+  Theorem C13_narrow32_is_IEEE_rounding : forall s m e,
+    let x := S754_finite s m e in
+    let r := round radix2 (FLT_exp (-149) 24) ZnearestE (SF2R radix2 x) in
+    let y := round32 x in
+    (Rabs r < bpow radix2 128 ->
+       SF2R radix2 y = r /\ is_finite_SF y = true /\ sign_SF y = s /\
+       SpecFloat.valid_binary 53 1024 y = true) /\
+    (bpow radix2 128 <= Rabs r -> y = S754_infinity s).
+  Proof. exact F32Spec.narrow32_is_IEEE_rounding. Qed.
+  Print Assumptions C13_narrow32_is_IEEE_rounding.
+
+  (* signed zeros, infinities and NaN go through unchanged *)
+  Theorem C13_narrow32_special : forall x,
+    match x with S754_finite _ _ _ => True | _ => round32 x = x end.
+  Proof. exact F32Spec.round32_special. Qed.
+  Print Assumptions C13_narrow32_special.
+
+  (* the same for every finite value of Flocq's binary64 type (zeros included) *)
+  Theorem C13_narrow32_binary64 : forall b : binary_float 53 1024, is_finite b = true ->
+    let r := round radix2 (FLT_exp (-149) 24) ZnearestE (B2R b) in
+    let y := round32 (B2SF b) in
+    (Rabs r < bpow radix2 128 ->
+       SF2R radix2 y = r /\ is_finite_SF y = true /\ sign_SF y = Bsign b /\
+       SpecFloat.valid_binary 53 1024 y = true) /\
+    (bpow radix2 128 <= Rabs r -> y = S754_infinity (Bsign b)).
+  Proof. exact F32Spec.narrow32_binary64. Qed.
+  Print Assumptions C13_narrow32_binary64.
+
+  (* and on Coq's primitive floats (what the cases files evaluate): g = float64(float32(f)) *)
+  Theorem C13_narrow32_prim : forall f : PrimFloat.float,
+    let bf := Flocq.IEEE754.PrimFloat.Prim2B f in
+    is_finite bf = true ->
+    let r := round radix2 (FLT_exp (-149) 24) ZnearestE (B2R bf) in
+    let g := SF2Prim (round32 (Prim2SF f)) in
+    (Rabs r < bpow radix2 128 ->
+       is_finite (Flocq.IEEE754.PrimFloat.Prim2B g) = true /\
+       B2R (Flocq.IEEE754.PrimFloat.Prim2B g) = r /\
+       Bsign (Flocq.IEEE754.PrimFloat.Prim2B g) = Bsign bf) /\
+    (bpow radix2 128 <= Rabs r -> g = if Bsign bf then PrimFloat.neg_infinity else PrimFloat.infinity).
+  Proof. exact F32Spec.narrow32_prim. Qed.
+  Print Assumptions C13_narrow32_prim.
+
+  (* the two steps of the proof that are of independent interest: the exponent the model
+     picks is the canonical exponent of the binary32 format, and its mantissa step is
+     Flocq's round-to-nearest-even of the exact quotient *)
+  Theorem C13_narrow_exponent_is_canonical : forall p e,
+    cexp radix2 (FLT_exp (-149) 24) (F2R (Float radix2 (Zpos p) e)) = F32Spec.ulp_exp (Npos p) e.
+  Proof. exact F32Spec.cexp_x. Qed.
+  Print Assumptions C13_narrow_exponent_is_canonical.
+
+  Theorem C13_round_shift_is_ZnearestE : forall m k,
+    ZnearestE (IZR (Z.of_N m) / IZR (2 ^ Z.of_N k)) = Z.of_N (round_shift m k).
+  Proof. exact F32Spec.round_shift_ZnearestE. Qed.
+  Print Assumptions C13_round_shift_is_ZnearestE.
+
+  (* both cases of C13_narrow32_is_IEEE_rounding occur *)
+  Example C13_narrow32_in_range_instance :
+    Rabs (round radix2 (FLT_exp (-149) 24) ZnearestE (SF2R radix2 (S754_finite false 1 0))) < bpow radix2 128.
+  Proof. exact F32Spec.in_range_instance. Qed.
+  Example C13_narrow32_overflow_instance :
+    bpow radix2 128 <= Rabs (round radix2 (FLT_exp (-149) 24) ZnearestE (SF2R radix2 (S754_finite false 1 128))).
+  Proof. exact F32Spec.overflow_instance. Qed.
+End Float32_is_IEEE.
+
+(* Corollary kept from the earlier, partial version: the mantissa step as an integer
+   statement (error at most half a unit, the even neighbour on a tie). *)
+Theorem C13_rounding_nearest_even : forall m k, k <> 0 ->
   let q := round_shift m k in
   (2 * (m - q * 2 ^ k) <= 2 ^ k /\ 2 * (q * 2 ^ k - m) <= 2 ^ k) /\
   ((2 * (m - q * 2 ^ k) = 2 ^ k \/ 2 * (q * 2 ^ k - m) = 2 ^ k) -> N.even q = true).
 Proof. exact round_shift_nearest. Qed.
-Print Assumptions C13_rounding_nearest_even_partial.
+Print Assumptions C13_rounding_nearest_even.
 
 (* ---- the normal.  Over the reals, Normal() of a non-degenerate triangle is the unit
    vector along (b-a)x(c-a).  Partial: the stored normal is the float32 rounding of the
-   binary64 evaluation of the same text ([normal_g float_ops]); its distance from the
-   real value is measured by the harness (300-bit reference), not proved. *)
+   binary64 evaluation of the same text ([normal_g float_ops]).  For triangles in the
+   regime of C13_normal_stored_error below its distance from this real value is proved
+   to be at most 2^-24 per component; for non-degenerate triangles outside that regime
+   (needle-like: |(b-a)x(c-a)| < 2^-20 M^2, or edge lengths beyond 2^+-200) it is only
+   measured by the harness (300-bit reference) - there the binary64 cross product can
+   lose all its digits, so no uniform bound exists. *)
 Theorem C13_normal_right_handed_partial : forall a b c : R * R * R,
   let n := normal_g R_ops a b c in
   let cr := crossR (subR b a) (subR c a) in
@@ -99,6 +178,74 @@ Theorem C13_normal_right_handed_partial : forall a b c : R * R * R,
   (0 < dotR n cr)%R /\ scale3 R_ops n (sqrt (dotR cr cr)) = cr.
 Proof. exact normal_right_handed. Qed.
 Print Assumptions C13_normal_right_handed_partial.
+
+(* ---- the stored normal: a proved rounding-error bound (Io/NormalErr.v, forward error
+   analysis over Flocq's model of binary64 and binary32 rounding).
+   [finite3 v]: the three primitive binary64 floats are finite; [val3 v]: their real values;
+   [stored_words ft] = vec_words (normal_f (tri_sf ft)): the three Normal words of the record
+   (C13_record_layout); [stored_normal ft]: their real values; [close3 v w e]: componentwise
+   |v_i - w_i| <= e; [well_shaped a b c M]: every component of b-a and c-a is at most M in
+   magnitude, 2^-200 <= M <= 2^200, and |(b-a) x (c-a)| >= 2^-20 * M^2. *)
+From Sdfx Require Io.NormalErr.
+Section Stored_normal.
+  Import Flocq.Core.Core Flocq.IEEE754.BinarySingleNaN NormalErr.
+  Local Open Scope R_scope.
+
+  (* the stored float32 normal of a well-shaped triangle of finite binary64 vertices is
+     finite and within 2^-24 of the exact unit normal of C13_normal_right_handed_partial *)
+  Theorem C13_normal_stored_error : forall (ft : ftri) (M : R),
+    let '(fa, fb, fc) := ft in
+    finite3 fa -> finite3 fb -> finite3 fc ->
+    well_shaped (val3 fa) (val3 fb) (val3 fc) M ->
+    Forall (fun w => is_finite_SF (widen32 w) = true) (stored_words ft) /\
+    close3 (stored_normal ft) (normal_g R_ops (val3 fa) (val3 fb) (val3 fc)) (bpow radix2 (-24)).
+  Proof. exact stored_normal_error. Qed.
+  Print Assumptions C13_normal_stored_error.
+
+  (* the same with the conditioning as a parameter: if 9 u1 M^2 <= th * |(b-a) x (c-a)|
+     with th <= 2^-29, the distance is at most 2^-25 + 8 th + 10 u1, u1 = 2^-53 (1 + 2^-100) *)
+  Theorem C13_normal_stored_error_conditioned : forall (ft : ftri) (M th : R),
+    let '(fa, fb, fc) := ft in
+    finite3 fa -> finite3 fb -> finite3 fc ->
+    regime (val3 fa) (val3 fb) (val3 fc) M th -> th <= bpow radix2 (-29) ->
+    Forall (fun w => is_finite_SF (widen32 w) = true) (stored_words ft) /\
+    close3 (stored_normal ft) (normal_g R_ops (val3 fa) (val3 fb) (val3 fc))
+           (bpow radix2 (-25) + (8 * th + 10 * u1)).
+  Proof. exact stored_normal_error_th. Qed.
+  Print Assumptions C13_normal_stored_error_conditioned.
+
+  (* the two halves.  (1) Real arithmetic with a binary64 rounding after every operation
+     ([rnd_ops]: rn x = round radix2 (FLT_exp (-1074) 53) ZnearestE x) stays within
+     8 th + 10 u1 of the exact normal, and below 1 + that in magnitude. *)
+  Theorem C13_normal_binary64_error : forall a b c M th, regime a b c M th ->
+    close3 (normal_g rnd_ops a b c) (normal_g R_ops a b c) (8 * th + 10 * u1) /\
+    max3 (normal_g rnd_ops a b c) (1 + (8 * th + 10 * u1)).
+  Proof. exact normal_rnd_error. Qed.
+  Print Assumptions C13_normal_binary64_error.
+
+  (* (2) In the regime Coq's primitive floats (the model's [normal_g float_ops], what the
+     cases files run against Go) compute exactly that rounded-real evaluation: every
+     intermediate is finite, the radicand positive, the divisor non-zero. *)
+  Theorem C13_normal_float_is_rounded_real : forall fa fb fc a b c M th,
+    fin3 fa a -> fin3 fb b -> fin3 fc c -> regime a b c M th ->
+    fin3 (normal_g float_ops fa fb fc) (normal_g rnd_ops a b c).
+  Proof. exact normal_float_eq. Qed.
+  Print Assumptions C13_normal_float_is_rounded_real.
+
+  (* the float32 step on a component of magnitude at most 1 + 2^-25 *)
+  Theorem C13_float32_unit_error : forall y, Rabs y <= 1 + bpow radix2 (-25) ->
+    Rabs (round radix2 (FLT_exp (-149) 24) ZnearestE y - y) <= bpow radix2 (-25) /\
+    Rabs (round radix2 (FLT_exp (-149) 24) ZnearestE y) < bpow radix2 128.
+  Proof. exact rnd32_unit_err. Qed.
+  Print Assumptions C13_float32_unit_error.
+
+  (* the regime is inhabited *)
+  Example C13_normal_stored_instance :
+    let ft : ftri := ((0, 0, 0), (1, 0, 0), (0, 1, 0))%float in
+    let '(fa, fb, fc) := ft in
+    finite3 fa /\ finite3 fb /\ finite3 fc /\ well_shaped (val3 fa) (val3 fb) (val3 fc) 1.
+  Proof. exact well_shaped_instance. Qed.
+End Stored_normal.
 
 (* ---- ASCII: a well-formed listing loads to the triangles it lists, given the
    ParseFloat oracle.  [listing] allows arbitrary non-vertex lines and requires three
@@ -143,3 +290,83 @@ Example C13_normal_instance :
   (dotR (crossR (subR (1, 0, 0) (0, 0, 0)) (subR (0, 1, 0) (0, 0, 0)))
         (crossR (subR (1, 0, 0) (0, 0, 0)) (subR (0, 1, 0) (0, 0, 0))) <> 0)%R.
 Proof. unfold dotR, crossR, subR. cbn. lra. Qed.
+
+(* ------------------------------------------------------------------ tie to the source by translation
+   Generated/IoExpr.v is re-translated from the Go AST of render/stl.go (and Triangle3.Normal with
+   the v3.Vec methods it calls) on every run by harness/iogen; Io/IoEq.v instantiates the library
+   calls with Io/GoSem.v (os, bufio, encoding/binary on one file) and proves the generated
+   definitions equal to the model the theorems above are about.  Each theorem below breaks when
+   the Go source it is named after changes what it computes. *)
+From Sdfx Require Io.GoSem Generated.IoExpr Io.IoEq.
+
+(* the struct types handed to binary.Write/Read: 84 and 50 bytes *)
+Theorem C13_TRANSL_layout_sizes :
+  GoSem.layout_size IoExpr.STLHeader_layout = 84%nat /\ GoSem.layout_size IoExpr.STLTriangle_layout = 50%nat.
+Proof. exact (conj IoEq.STLHeader_size IoEq.STLTriangle_size). Qed.
+Print Assumptions C13_TRANSL_layout_sizes.
+
+(* binary.Write(LittleEndian, &STLHeader): field order, widths and byte order give encode_header *)
+Theorem C13_TRANSL_header_bytes : forall d : list N, length d = 81%nat ->
+  GoSem.encode_struct GoSem.LittleEndian IoExpr.STLHeader_layout d = encode_header (nth 80 d 0).
+Proof. exact IoEq.header_bytes. Qed.
+Print Assumptions C13_TRANSL_header_bytes.
+
+(* binary.Write(LittleEndian, &STLTriangle): 12 float32 words in field order, then the uint16 = 0 *)
+Theorem C13_TRANSL_triangle_bytes : forall (ws : list word) (x : N), length ws = 12%nat ->
+  GoSem.encode_struct GoSem.LittleEndian IoExpr.STLTriangle_layout (ws ++ [x]) = encode_words ws ++ le 2 0.
+Proof. exact IoEq.triangle_bytes. Qed.
+Print Assumptions C13_TRANSL_triangle_bytes.
+
+(* Triangle3.Normal and Vec.Sub/Cross/Normalize/MulScalar/Length/Length2/Dot = normal_g, in any arithmetic *)
+Theorem C13_TRANSL_Normal : forall (T : Type) (o : ops T) (t : (T * T * T) * (T * T * T) * (T * T * T)),
+  IoExpr.gen_Triangle3_Normal T (IoEq.fz_ops o) (o_add o) (o_sub o) (o_mul o) (o_div o) (o_sqrt o) t
+  = let '(a, b, c) := t in normal_g o a b c.
+Proof. exact @IoEq.Normal_eq. Qed.
+Print Assumptions C13_TRANSL_Normal.
+
+(* SaveSTL on a file that can be created: header with uint32(len(mesh)), one record per triangle
+   (Normal and the nine coordinates converted with float32(), in this order), Flush: the bytes on
+   disk are [save], for any float64 arithmetic *)
+Theorem C13_TRANSL_SaveSTL : forall fz fadd fsub fmul fdiv fsqrt path mesh w, GoSem.fw_open_err w = None ->
+  exists w', IoEq.SaveSTL_m fz fadd fsub fmul fdiv fsqrt path mesh w = GoSem.Val w' None /\
+             GoSem.fw_disk w' = save (IoEq.nrm fz fadd fsub fmul fdiv fsqrt) mesh /\ GoSem.fw_buf w' = [].
+Proof. exact IoEq.SaveSTL_eq. Qed.
+Print Assumptions C13_TRANSL_SaveSTL.
+
+(* writeSTL (the consumer behind render.ToSTL) fed with any list of batches: placeholder header,
+   records through the 4096-byte bufio.Writer, Flush, Seek(0,0), header with the uint32 counter *)
+Theorem C13_TRANSL_writeSTL : forall fz fadd fsub fmul fdiv fsqrt path batches w, GoSem.fw_open_err w = None ->
+  exists w', IoEq.writeSTL_m fz fadd fsub fmul fdiv fsqrt path batches w = GoSem.Val w' None /\
+             GoSem.fw_disk w' = stream_save (IoEq.nrm fz fadd fsub fmul fdiv fsqrt) GoSem.bufio_default_size batches.
+Proof. exact IoEq.writeSTL_eq. Qed.
+Print Assumptions C13_TRANSL_writeSTL.
+
+(* at binary64 (Go's float64 operations = PrimFloat's) these are the models the run executes against
+   the real files: save_f and stream_save_f *)
+Theorem C13_TRANSL_SaveSTL_binary64 : forall path mesh w, GoSem.fw_open_err w = None ->
+  exists w', IoEq.SaveSTL_m (IoEq.fz_ops IoEq.sf_ops) (o_add IoEq.sf_ops) (o_sub IoEq.sf_ops) (o_mul IoEq.sf_ops)
+               (o_div IoEq.sf_ops) (o_sqrt IoEq.sf_ops) path mesh w = GoSem.Val w' None /\
+             GoSem.fw_disk w' = save_f mesh.
+Proof. exact IoEq.SaveSTL_f_eq. Qed.
+Print Assumptions C13_TRANSL_SaveSTL_binary64.
+
+Theorem C13_TRANSL_writeSTL_binary64 : forall path batches w, GoSem.fw_open_err w = None ->
+  exists w', IoEq.writeSTL_m (IoEq.fz_ops IoEq.sf_ops) (o_add IoEq.sf_ops) (o_sub IoEq.sf_ops) (o_mul IoEq.sf_ops)
+               (o_div IoEq.sf_ops) (o_sqrt IoEq.sf_ops) path batches w = GoSem.Val w' None /\
+             GoSem.fw_disk w' = stream_save_f batches.
+Proof. exact IoEq.writeSTL_f_eq. Qed.
+Print Assumptions C13_TRANSL_writeSTL_binary64.
+
+(* loadSTLBinary from the current offset = decode; LoadSTL = load Repaired (size test
+   size == int64(count)*50 + 84, rewind, binary or ASCII path) for every file of bytes and every
+   scanner / Fields / ParseFloat oracle *)
+Theorem C13_TRANSL_loadSTLBinary : forall fz w,
+  IoEq.outcome_of (IoEq.loadSTLBinary_m fz w) = match decode (GoSem.fw_rest w) with Some ts => Mesh ts | None => Err end.
+Proof. exact IoEq.loadSTLBinary_eq. Qed.
+Print Assumptions C13_TRANSL_loadSTLBinary.
+
+Theorem C13_TRANSL_LoadSTL : forall scan Fields pf fz path w,
+  GoSem.fw_open_err w = None -> bytes_ok (GoSem.fw_disk w) ->
+  IoEq.outcome_of (IoEq.LoadSTL_m scan Fields pf fz path w) = load pf Repaired (IoEq.file_at scan Fields (GoSem.fw_at w 0)).
+Proof. exact IoEq.LoadSTL_eq. Qed.
+Print Assumptions C13_TRANSL_LoadSTL.
